@@ -156,8 +156,18 @@ def run_life(L: dict) -> dict:
 
             async def finalize(self):
                 calls.append({"p": self.k, "c": "fin", "t": now_ms()})
-                if self.spec["fin"] == "raise":
-                    raise ProducerError(f"fin {self.k}")
+                try:
+                    if self.spec["fin"] == "raise":
+                        raise ProducerError(f"fin {self.k}")
+                    # closing a session / socket suspends: the run must not end before this is over
+                    await asyncio.sleep(0.001 * (len(L["producers"]) - self.k + 1))
+                    await asyncio.sleep(0)
+                except asyncio.CancelledError:
+                    calls.append({"p": self.k, "c": "fin_cancelled", "t": now_ms()})
+                    raise
+                finally:
+                    if not any(c["c"] == "fin_cancelled" and c["p"] == self.k for c in calls):
+                        calls.append({"p": self.k, "c": "fin_end", "t": now_ms()})
         base = 0 if L["disp"] == "rt" else 1
         for k, spec in enumerate(L["producers"], start=1):
             p = P(k, spec)
